@@ -351,17 +351,24 @@ def _read_csv(
             rest_kwargs["usecols"] = _columns
 
     # Call `pandas_read_text`
-    df = pandas_read_text(
-        reader,
-        block,
-        header,
-        rest_kwargs,
-        dtypes,
-        _columns,
-        write_header,
-        enforce,
-        path_info,
-    )
+    try:
+        df = pandas_read_text(
+            reader,
+            block,
+            header,
+            rest_kwargs,
+            dtypes,
+            _columns,
+            write_header,
+            enforce,
+            path_info,
+        )
+    except pd.errors.EmptyDataError:
+        if is_first:
+            raise
+        # ``header=None`` without ``names``: a block that holds no row (the
+        # blocksize is smaller than a line) is an empty partition
+        df = head.iloc[:0][_columns] if _columns != full_columns else head.iloc[:0]
     if project_after_read:
         return df[columns]
     return df
